@@ -18,6 +18,13 @@
 //!                                     (`nodes=` LinearLocator, `rnd=` RandomLocator) in derive(Debug) order.
 //!                                     The tree words are for the Lean driver, which answers the same line from
 //!                                     its model of the fold (generated fold program + overrides).
+//!   pfold <d|r> <mode> <src> <tokens> <spans> <tree>...
+//!                                     the same answer as `fold` plus ` chk=ok`.  The attachments are for the Lean
+//!                                     driver: it runs the program-parser MODEL `PV.C02.parseRProgram` on the real
+//!                                     tokens and spans, checks that the model's tree is the attached real tree
+//!                                     (kinds, ranges, field positions), folds THE MODEL'S tree with its model of
+//!                                     the fold and evaluates the hypotheses / conclusions of the parser-level
+//!                                     theorems on it (`chk=`).
 //! `d|r` names the build flavour the request is meant for (debug assertions + overflow checks, or not).
 use pvh::*;
 use rustpython_ast::Fold;
@@ -484,6 +491,11 @@ fn handle(ws: &[&str]) -> String {
         ["fold", f, m, t, ..] => match (mode_of(m), unhex_str(t)) {
             _ if *f != flavour() => "wrong-build".to_string(),
             (Some(m), Some(t)) => fold_op(m, &t),
+            _ => bad(),
+        },
+        ["pfold", f, m, t, ..] => match (mode_of(m), unhex_str(t)) {
+            _ if *f != flavour() => "wrong-build".to_string(),
+            (Some(m), Some(t)) => format!("{} chk=ok", fold_op(m, &t)),
             _ => bad(),
         },
         ["locseq", f, t, ops @ ..] => match unhex_str(t) {
